@@ -26,9 +26,9 @@ where
     T: Service<Publish, Response = Either<(), Publish>, Error = E> + 'static,
     C: Service<ProtocolMessage, Response = ProtocolMessageAck, Error = E> + 'static,
 {
-    // limit number of in-flight messages
+    // limit number of in-flight messages, `0` disables the limit
     InFlightService::new(
-        inflight,
+        if inflight == 0 { usize::MAX } else { inflight },
         Dispatcher::new(
             sink,
             publish,
